@@ -2,7 +2,7 @@
 # Run a check against a seeded change applied to /repo itself, then undo it.
 # usage: tools/run_seeded.sh <seeded-dir> [tier]     e.g. tools/run_seeded.sh seeded/C09-1
 D=$(realpath $1); TIER=${2:-quick}
-ID=$(python3 -c "import json;print(json.load(open('$D/meta.json'))['property'])")
+ID=$(python3 -c "import json;m=json.load(open('$D/meta.json'));print(m.get('checked_by',m['property']))")
 cd /repo || exit 9
 if ! git diff --quiet; then echo "/repo has uncommitted changes; refusing"; exit 9; fi
 git apply --3way $D/patch.diff 2>/dev/null || git apply $D/patch.diff || patch -s -p1 --fuzz=3 < $D/patch.diff || { echo "patch does not apply"; git checkout -- .; exit 9; }
